@@ -23,7 +23,7 @@ import (
 )
 
 type vC01Cmd struct {
-	Op   string   `json:"op"`            // pin unpin other junk map disc conn snap hold release restart obs sync
+	Op   string   `json:"op"`            // pin unpin other junk map disc conn snap hold release restart obs sync offline
 	Node int      `json:"node"`          // relative to the current leader: 0 = leader, 1, 2 = the others in index order
 	Pin  *vC01Pin `json:"pin,omitempty"` // pin unpin other
 	T    int      `json:"t,omitempty"`   // LogOpType of "other" (3..9)
@@ -217,7 +217,49 @@ func vC01Gen(r *vRand) vC01Case {
 			p.Cid = i % 2
 			c.Cmds = append(c.Cmds, vC01Cmd{Op: "pin", Node: 0, Pin: p})
 		}
-		c.Cmds = append(c.Cmds, vC01Cmd{Op: "release"}, vC01Cmd{Op: "restart", Node: 0}, vC01Cmd{Op: "sync"})
+		c.Cmds = append(c.Cmds, vC01Cmd{Op: "release"})
+		if r.chance(60) {
+			// ... and OfflineState is read on the replica whose newest snapshot was written late (S23, shape of the recogniser's
+			// OOffline clause): with or without the restart that restores it
+			c.Cmds = append(c.Cmds, vC01Cmd{Op: "offline", Node: 0})
+			if r.chance(50) {
+				return c
+			}
+		}
+		c.Cmds = append(c.Cmds, vC01Cmd{Op: "restart", Node: 0}, vC01Cmd{Op: "sync"})
+		if r.chance(30) {
+			c.Cmds = append(c.Cmds, vC01Cmd{Op: "offline", Node: 0})
+		}
+		return c
+	}
+	if r.chance(6) {
+		// install-during-snapshot shape: a follower has a snapshot requested (FSM.Snapshot done, Persist held back), is
+		// isolated, misses entries that the leader compacts away, and is sent the leader's snapshot while its own is still
+		// pending; its own snapshot is written afterwards (it then contains the installed state under the old label); the
+		// follower restarts on its stores and OfflineState is read
+		c.N = 3
+		c.Trail = 1 // the leader compacts all but one entry: the follower cannot be served from the log
+		f := 1 + r.intn(2)
+		for i := 0; i < 1+r.intn(3); i++ {
+			p := vC01GenPin(r, 2, 0, false)
+			c.Cmds = append(c.Cmds, vC01Cmd{Op: "pin", Node: 0, Pin: p})
+		}
+		c.Cmds = append(c.Cmds, vC01Cmd{Op: "sync"}, vC01Cmd{Op: "hold", Node: f}, vC01Cmd{Op: "disc", Node: f})
+		for i := 0; i < 3+r.intn(3); i++ {
+			p := vC01GenPin(r, 2, 0, false)
+			p.Cid = i % 2
+			if i%3 == 2 {
+				c.Cmds = append(c.Cmds, vC01Cmd{Op: "unpin", Node: 0, Pin: &vC01Pin{Cid: p.Cid, Type: 2, MaxDepth: -1, Update: -1, Ref: -1}})
+			} else {
+				c.Cmds = append(c.Cmds, vC01Cmd{Op: "pin", Node: 0, Pin: p})
+			}
+		}
+		c.Cmds = append(c.Cmds, vC01Cmd{Op: "snap", Node: 0}, vC01Cmd{Op: "conn", Node: -1}, vC01Cmd{Op: "sync"}, vC01Cmd{Op: "release"})
+		// the follower is addressed relative to the leader of the moment: observe / restart every member instead
+		c.Cmds = append(c.Cmds, vC01Cmd{Op: "offline", Node: -1})
+		if r.chance(70) {
+			c.Cmds = append(c.Cmds, vC01Cmd{Op: "restart", Node: -1}, vC01Cmd{Op: "sync"}, vC01Cmd{Op: "offline", Node: -1})
+		}
 		return c
 	}
 	n := 5 + r.intn(14)
@@ -265,8 +307,10 @@ func vC01Gen(r *vRand) vC01Case {
 			}
 		case x < 86:
 			c.Cmds = append(c.Cmds, vC01Cmd{Op: "restart", Node: r.intn(c.N)})
-		case x < 93:
+		case x < 91:
 			c.Cmds = append(c.Cmds, vC01Cmd{Op: "obs"})
+		case x < 94:
+			c.Cmds = append(c.Cmds, vC01Cmd{Op: "offline", Node: r.intn(c.N)})
 		default:
 			c.Cmds = append(c.Cmds, vC01Cmd{Op: "sync"})
 		}
@@ -493,16 +537,51 @@ func vC01RunCase(c vC01Case) (res vC01Result) {
 					heldNode = -1
 				}
 			case "restart":
-				n := resolve(cmd.Node)
-				if heldNode == n.idx {
-					rig.release(heldNode)
-					holdWG.Wait()
-					heldNode = -1
+				targets := []*vC01Node{}
+				if cmd.Node < 0 { // every member, one after the other (the others keep the quorum)
+					targets = append(targets, rig.nodes...)
+				} else {
+					targets = append(targets, resolve(cmd.Node))
 				}
-				rig.stop(n)
-				if err := rig.start(n); err != nil {
-					res.skipped = "restart: " + err.Error()
-					return
+				for _, n := range targets {
+					if heldNode == n.idx {
+						rig.release(heldNode)
+						holdWG.Wait()
+						heldNode = -1
+					}
+					rig.stop(n)
+					if err := rig.start(n); err != nil {
+						res.skipped = "restart: " + err.Error()
+						return
+					}
+					if len(targets) > 1 {
+						rig.quiesce(10 * time.Second)
+					}
+				}
+			case "offline":
+				// OfflineState of a member's data (of every member when Node < 0). A snapshot of the member that is being
+				// written right now (requested, not held) would make the store and the trace disagree for a moment: the
+				// script runs its snapshots synchronously, so there is none.
+				targets := []*vC01Node{}
+				if cmd.Node < 0 {
+					targets = append(targets, rig.nodes...)
+				} else {
+					targets = append(targets, resolve(cmd.Node))
+				}
+				for _, n := range targets {
+					if !n.started {
+						continue
+					}
+					switch st := rig.observeOffline(n); st {
+					case "ok":
+						res.stats["offline_obs"]++
+					case "foreign":
+						res.stats["offline_foreign_snapshot"]++
+					case "error":
+						res.stats["offline_err"]++
+					default:
+						res.stats["offline_rig_"+st]++
+					}
 				}
 			case "obs":
 				rig.observeAll()
@@ -720,6 +799,16 @@ func vC01Finalize(rig *vC01Rig, subs []vC01Submitted, nNodes int, res *vC01Resul
 				}
 				evs = append(evs, fmt.Sprintf("OObs %d (Some %s)", e.Node, cqList(ps)))
 			}
+		case "offline":
+			if !e.Ok {
+				res.direct = append(res.direct, fmt.Sprintf("OfflineState of node %d failed on a complete snapshot: %s", e.Node, e.Hash))
+				break
+			}
+			ps := make([]string, len(e.Pins))
+			for i, p := range e.Pins {
+				ps[i] = p.coq()
+			}
+			evs = append(evs, fmt.Sprintf("OOffline %d %s", e.Node, cqList(ps)))
 		case "ready":
 			ps := make([]string, len(e.Pins))
 			for i, p := range e.Pins {
